@@ -95,6 +95,11 @@ static std::string pd_sig(const ProjData& pd)
 static bool sig_close(const std::string& a, const std::string& b)
 {
   if (a == b) return true;
+  {
+    const auto sa = a.find("||"), sb = b.find("||");
+    if (sa != std::string::npos || sb != std::string::npos)
+      return sa != std::string::npos && sb != std::string::npos && sig_close(a.substr(0, sa), b.substr(0, sb)) && sig_close(a.substr(sa + 2), b.substr(sb + 2));
+  }
   auto pa = a.find(':'), pb = b.find(':');
   if (pa == std::string::npos || pb == std::string::npos) return false;
   double ma = atof(a.c_str() + 4), mb = atof(b.c_str() + 4);
@@ -272,6 +277,18 @@ static Body make_D(const std::string& what, int threads, bool cache, int setup_t
         bp.back_project(*t, *s.data);
         return img_sig(*t);
       }
+    if (what == "bck2")
+      { // ONE back projector used twice: first by a team of setup_threads (explored, so that the higher-numbered threads do work),
+        // then by a (smaller or larger) team of `threads`; both results must be the single-thread result
+        shared_ptr<ProjMatrixByBinUsingRayTracing> m(new ProjMatrixByBinUsingRayTracing()); m->enable_cache(cache);
+        BackProjectorByBinUsingProjMatrixByBin bp(m);
+        vompx::suspend(true); vomp_set_team_size(use_threads == 1 ? 1 : setup_threads); bp.set_up(s.pdi, s.im); vompx::suspend(false);
+        shared_ptr<DiscretisedDensity<3, float>> t1(s.im->get_empty_copy()), t2(s.im->get_empty_copy());
+        bp.back_project(*t1, *s.data);
+        vomp_set_team_size(use_threads);
+        bp.back_project(*t2, *s.data);
+        return img_sig(*t1) + "||" + img_sig(*t2);
+      }
     shared_ptr<DiscretisedDensity<3, float>> t(s.im->clone());
     // set_up runs with the set-up team size under the default (deterministic) schedule: not part of the explored space
     vompx::suspend(true);
@@ -363,6 +380,8 @@ static std::vector<Body> bodies(bool thorough, bool tsan)
   for (const char* w : { "gradient", "value", "sensitivity", "hessian", "fwd", "bck" }) v.push_back(make_D(w, 2, false, 2));
   v.push_back(make_D("gradient", 2, true, 2));
   v.push_back(make_D("bck", 3, false, 2));   // team size at use != team size at set_up
+  v.push_back(make_D("bck2", 2, false, 3));  // the same projector used by 3 threads, then by 2 (per-thread accumulators of the first call must not leak)
+  v.push_back(make_D("bck2", 3, false, 2));
   v.push_back(make_D("gradient", 3, false, 1));
   if (thorough)
     {
